@@ -49,7 +49,7 @@ GroupClauses(c, Dn, G, perms) ==
    <<"model_induced_maps_are_permutations", \A p \in perms : IsPerm(p, NS)>>,
    <<"model_group_order", Cardinality(G) = Cardinality({g \in OpsRT(c.w, 2) : PreservesSuper(c.S, g[1])}) * SIndex(c.S)
                           \/ Cardinality({g \in OpsRT(c.w, 2) : g[1] = IdMat(c.w.dim)}) > 1>>,
-   <<"model_group_axioms", Cardinality(G) > 100 \/ IsGroup([D |-> Dn, dim |-> c.w.dim], G)>>
+   <<"model_group_axioms", Cardinality(G) > 200 \/ IsGroup([D |-> Dn, dim |-> c.w.dim], G)>>
   >>
 
 \* ---- clauses about one recorded call a.equivalencemap(b)
@@ -92,22 +92,30 @@ PairEval(c, Dn, G, perms, j) ==
 
 CaseEval(c) ==
   IF ~SitesCorrect(c.w, c.S, c.sites)
-  THEN [cl |-> << <<"sites_are_the_sites_of_the_supercell", FALSE>> >>, eq |-> "e", order |-> 0]
+  THEN [cl |-> << <<"sites_are_the_sites_of_the_supercell", FALSE>> >>, eq |-> <<>>, order |-> 0]
   ELSE
     LET Dn == SuperD(c.w, c.S)
         G == SuperOps(c.w, c.S, c.sites)
         perms == {SitePerm(Dn, c.sites, g[1], g[2]) : g \in G}
         pe == FoldLeft(LAMBDA acc, j : Append(acc, PairEval(c, Dn, G, perms, j)), <<>>, Idx(Len(c.pairs)))
     IN [cl |-> GroupClauses(c, Dn, G, perms) \o FlattenSeq([j \in DOMAIN pe |-> pe[j].cl]),
-        eq |-> FoldLeft(LAMBDA s, j : s \o (IF pe[j].eq THEN "1" ELSE "0"), "e", Idx(Len(pe))),
+        eq |-> FoldLeft(LAMBDA acc, j : Append(acc, pe[j].eq), <<>>, Idx(Len(pe))),
         order |-> Cardinality(G)]
+
+\* which pairs are Equivalent, as strings of 0/1 in chunks of 40 pairs (long PrintT values are wrapped by TLC)
+Chunk == 40
+NChunks(eq) == (Len(eq) + Chunk - 1) \div Chunk
+EqChunk(eq, ch) ==
+  LET lo == ch * Chunk
+      n == IF Len(eq) - lo < Chunk THEN Len(eq) - lo ELSE Chunk
+  IN FoldLeft(LAMBDA s, i : s \o (IF eq[lo + i] THEN "1" ELSE "0"), "e", Idx(n))
 
 Init == k = 0
 Next == /\ k < Len(Cases)
         /\ k' = k + 1
         /\ LET r == CaseEval(Cases[k']) IN
              /\ \A j \in DOMAIN r.cl : r.cl[j][2] \/ PrintT(<<"FAIL", k', r.cl[j][1]>>)
-             /\ PrintT(<<"INFO", k', "equivalent", r.eq>>)
+             /\ \A ch \in 0..(NChunks(r.eq) - 1) : PrintT(<<"INFO", k', "equivalent" \o ToString(ch), EqChunk(r.eq, ch)>>)
              /\ PrintT(<<"INFO", k', "order", r.order>>)
         /\ (k' = Len(Cases) => PrintT(<<"DONE", k'>>))
 =============================================================================
